@@ -110,12 +110,12 @@ def s_step(batchable=False):
     qcoll = st.fixed_dictionaries({"op": st.just("qupdate"), "k": _K, "c": _C, "sets": st.lists(part_op, min_size=1, max_size=2), "vals": st.just({}),
                                    "seed": st.integers(0, 1000).filter(lambda n: n % 4), "opt": s_opt()})
     qdelete = st.fixed_dictionaries({"op": st.just("qdelete"), "k": _K, "c": st.one_of(_C, _C, st.none()), "opt": s_opt(ttl=False)})
-    counter = st.fixed_dictionaries({"op": st.just("counter"), "how": st.sampled_from(["create", "load_incr", "load_incr", "queryset", "delete"]), "slot": _SLOT,
+    counter = st.fixed_dictionaries({"op": st.just("counter"), "how": st.sampled_from(["create", "create", "load_incr", "load_incr", "load_incr", "load_incr", "queryset", "delete"]), "slot": _SLOT,
                                      "k": _K, "c": _C, "d1": st.integers(-3, 5), "d2": st.integers(-2, 2), "method": st.sampled_from(["save", "update"])})
     rekey = st.fixed_dictionaries({"op": st.just("rekey"), "slot": _SLOT, "k": _K, "c": _C, "part": st.sampled_from([False, False, True]), "set": s_given(max_size=2)})
     if batchable:
         return st.one_of(create, save, update, delete, blind, qupdate, qcoll, qdelete)
-    return st.one_of(create, create, load, load, assign, save, save, save, update, update, update, delete, blind, qupdate, qcoll, qcoll, qdelete, counter, rekey)
+    return st.one_of(create, create, load, load, assign, save, save, save, update, update, update, delete, blind, qupdate, qcoll, qcoll, qdelete, counter, counter, rekey)
 
 
 def s_case():
